@@ -40,14 +40,17 @@ class ControllerH(Harness):
                               reduce_lr_patience=c["rl_pat"], reduce_lr_cooldown=c["rl_cool"], reduce_lr_burnin=c["rl_burn"],
                               keep_last_and_best_only=c.get("keep", True))
 
-    def _scenario(self, T, fs, p, vs, root):
-        """run E epochs, then restart after every prefix; returns list of (label, violated?) with cells"""
+    def _scenario(self, T, fs, p, vs, root, notes=None):
+        """run E epochs, then restart after every prefix; returns list of (label, violated?) with cells.
+        notes: per-epoch values of a user str entry (None: no such entry)"""
         c = self.cfg
+        ustr = notes is not None
+        extra = lambda e: dict(foo=7 * e, note=notes[e - 1]) if ustr else dict(foo=7 * e)
         E_ = c["E"]
         csv = os.path.join(root, "hist.csv") if c["files"] else None
         sdir = os.path.join(root, "states") if c["files"] else None
         viol = []
-        ctl = TC.new_controller(T, p, csv, sdir, user_int=True)
+        ctl = TC.new_controller(T, p, csv, sdir, user_int=True, user_str=ustr)
         model, opt = TC.StubModel(), TC.StubOptim(LR0)
         spec = TC.Spec(p, LR0)
         alive = True
@@ -55,7 +58,7 @@ class ControllerH(Harness):
         snaps = []
         for e in range(1, E_ + 1):
             model.tok, opt.tok = ("model", e), ("optim", e)
-            cont = ctl.update_for_epoch(model, opt, 1.0, vs[e - 1], foo=7 * e)
+            cont = ctl.update_for_epoch(model, opt, 1.0, vs[e - 1], **extra(e))
             sc, slr = spec.step(cell(vs[e - 1]))
             if alive:
                 viol.append((f"epoch {e}: continue/stop decision differs from the stated rule", same(bool(cont) if not isinstance(cont, _Sym) else cont, sc)))
@@ -71,12 +74,14 @@ class ControllerH(Harness):
         if c["files"] and c.get("restart"):
             for r in range(1, n_done):
                 fs.restore(snaps[r - 1])
-                ctl2 = TC.new_controller(T, p, csv, sdir, user_int=True)
+                ctl2 = TC.new_controller(T, p, csv, sdir, user_int=True, user_str=ustr)
                 viol.append((f"restart after epoch {r}: last epoch not {r}", ctl2.get_last_epoch() != r))
                 info = ctl2.get_info(r, None)
                 if info is None:
                     continue
                 viol.append((f"restart after epoch {r}: user entry lost its declared type/value", not (type(info["foo"]) is int and info["foo"] == 7 * r)))
+                if ustr:
+                    viol.append((f"restart after epoch {r}: user str entry {notes[r - 1]!r} came back as {info.get('note')!r}", info.get("note") != notes[r - 1]))
                 viol.append((f"restart after epoch {r}: continue_training differs from the uninterrupted run", same(ctl2.continue_training(), trace[r - 1][0])))
                 m2, o2 = TC.StubModel(), TC.StubOptim(LR0)
                 ctl2.load_model_and_optimizer_for_epoch(m2, o2)
@@ -84,11 +89,11 @@ class ControllerH(Harness):
                 viol.append((f"restart after epoch {r}: optimizer learning rate differs", same(o2.param_groups[0]["lr"], trace[r - 1][1])))
                 for e in range(r + 1, n_done + 1):
                     m2.tok, o2.tok = ("model", e), ("optim", e)
-                    cont = ctl2.update_for_epoch(m2, o2, 1.0, vs[e - 1], foo=7 * e)
+                    cont = ctl2.update_for_epoch(m2, o2, 1.0, vs[e - 1], **extra(e))
                     viol.append((f"restart after epoch {r}: decision at epoch {e} differs from the uninterrupted run", same(bool(cont), trace[e - 1][0])))
                     viol.append((f"restart after epoch {r}: learning rate at epoch {e} differs", same(o2.param_groups[0]["lr"], trace[e - 1][1])))
                     i2, i1 = ctl2.get_info(e), trace[e - 1][2]
-                    for k in ("es_resume_cd", "es_patience_cd", "rlr_resume_cd", "rlr_patience_cd", "lr", "val_met", "foo"):
+                    for k in ("es_resume_cd", "es_patience_cd", "rlr_resume_cd", "rlr_patience_cd", "lr", "val_met", "foo") + (("note",) if ustr else ()):
                         viol.append((f"restart after epoch {r}: recorded history entry {k} of epoch {e} differs", same(i2[k], i1[k])))
         return viol
 
@@ -101,8 +106,11 @@ class ControllerH(Harness):
             thr = list(c["thr"])
         vs = [SymFloat(eng.grid(f"v{e}", 0, 12, 4)) for e in range(1, c["E"] + 1)]
         fs = TC.MemFS()
+        notes = None
+        if c.get("user_str"):   # a user str entry whose value per epoch is picked by the solver (forks): empty, with a space, digit-only
+            notes = [NOTES[eng.decide_int(eng.int(f"note{e}", 0, len(NOTES) - 1))] for e in range(1, c["E"] + 1)]
         with patched(T, **fs.shadows(T)):
-            viol = self._scenario(T, fs, self._params(thr), vs, "/mem")
+            viol = self._scenario(T, fs, self._params(thr), vs, "/mem", notes)
         return dict(outputs=[], viol=viol)
 
     def concrete(self, vals):
@@ -113,8 +121,9 @@ class ControllerH(Harness):
         root = _tempfile.mkdtemp(prefix="verif_c15_")
         try:
             fs = TC.RealFS(root)
+            notes = [NOTES[vals[f"note{e}"]] for e in range(1, c["E"] + 1)] if c.get("user_str") else None
             with patched(T, **fs.shadows(T)):
-                viol = self._scenario(T, fs, self._params(thr), vs, root)
+                viol = self._scenario(T, fs, self._params(thr), vs, root, notes)
         finally:
             shutil.rmtree(root, ignore_errors=True)
             try:
@@ -122,6 +131,9 @@ class ControllerH(Harness):
             except Exception:
                 pass
         return dict(outputs=[], failures=[l for l, cnd in viol if (cnd is True) or (cnd is not False and bool(cnd))])
+
+
+NOTES = ["", "a b", "0"]
 
 
 def grid_roundtrip_ok():
@@ -142,7 +154,7 @@ META = dict(
         "burn-in/cool-down counters and the learning rate, evaluated as z3 terms; asserted per epoch (until the first stop): stop decision, recorded "
         "learning rate, optimizer learning rate, continue_training().  Restart: after every prefix the in-memory file system is rolled back to that point, "
         "a fresh controller is built from the history/state files, and must load the states saved for that epoch and reproduce decisions, learning rates "
-        "and recorded history entries of the uninterrupted run; a user int entry must come back as int."),
+        "and recorded history entries of the uninterrupted run; a user int entry must come back as int, a user str entry (empty, with a space, digit-only; picked per epoch by the solver) as the same string."),
     bounds=dict(quick="E=3 epochs (E=4 for two configurations), metrics k/4 k<=12, thresholds symbolic k/4 k<=4, patience/burn-in/cool-down in 1..2/0..2/0..1, num_epochs in {None,2,3}",
                 thorough="E=4 epochs for all combinations of patience 1..3, burn-in 0..2, cool-down 0..2, num_epochs in {None,2,4}, factor in {1/2,1/4}; E=5 for selected"),
     assumptions=[
@@ -175,7 +187,11 @@ def tasks(tier):
         for i, cb in enumerate(combos):
             ts.append(task(PROP, M_, "ControllerH", factor=0.5, thr="sym", files=(i % 2 == 1), restart=(i % 2 == 1), keep=(i == 1), nvalidate=1, **cb))
         ts.append(task(PROP, M_, "ControllerH", E=4, num_epochs=None, es_pat=1, es_burn=0, rl_pat=1, rl_burn=0, rl_cool=1, factor=0.25, thr=[0.0, 0.25], files=True, restart=True, keep=False, nvalidate=1))
+        ts.append(task(PROP, M_, "ControllerH", E=3, num_epochs=None, es_pat=2, es_burn=0, rl_pat=1, rl_burn=0, rl_cool=0, factor=0.5, thr=[0.25, 0.25], files=True, restart=True, keep=True,
+                       user_str=True, nvalidate=1))
     else:
+        ts.append(task(PROP, M_, "ControllerH", E=3, num_epochs=None, es_pat=2, es_burn=1, rl_pat=2, rl_burn=0, rl_cool=1, factor=0.5, thr=[0.25, 0.5], files=True, restart=True, keep=False,
+                       user_str=True, nvalidate=1))
         for es_pat, es_burn, rl_pat, rl_burn, rl_cool, ne in itertools.product([1, 2, 3], [0, 1, 2], [1, 2, 3], [0, 1], [0, 1, 2], [None, 2, 4]):
             if (es_pat + es_burn + rl_pat + rl_burn + rl_cool) % 3 != 0:
                 continue
